@@ -2,6 +2,8 @@ package oracle
 
 import (
 	"fmt"
+	"github.com/hashicorp/hcl-lang/lang"
+	"github.com/hashicorp/hcl/v2/hclsyntax"
 	"strings"
 
 	"github.com/hashicorp/hcl-lang/reference"
@@ -189,12 +191,12 @@ func (o *C09) Check(x *h.Exec, ev *h.Event) {
 							as = mc.Body.Any
 						}
 						// inferred bodies are read with the static body even where a
-					// dependent body overrides the attribute: either declaration counts
-					var static *world.AttrSpec
-					if mc.Block != nil && mc.Block.Body != nil {
-						static = mc.Block.Body.Attr(it.Attr.Name)
-					}
-					if (as != nil && consHasAddrRef(as.Cons)) || (static != nil && consHasAddrRef(static.Cons)) {
+						// dependent body overrides the attribute: either declaration counts
+						var static *world.AttrSpec
+						if mc.Block != nil && mc.Block.Body != nil {
+							static = mc.Block.Body.Attr(it.Attr.Name)
+						}
+						if (as != nil && consHasAddrRef(as.Cons)) || (static != nil && consHasAddrRef(static.Cons)) {
 							it.Attr.Expr.Walk(func(e *world.Expr) {
 								if e.ID > 0 && e.ID < len(rd.Nodes) && rd.Nodes[e.ID] != nil {
 									sp := rd.Nodes[e.ID].Range
@@ -210,6 +212,44 @@ func (o *C09) Check(x *h.Exec, ev *h.Event) {
 			}
 			if pr := structureProblem(nil, got, 0, exempt); pr != "" {
 				x.Report("nesting", "targets", "", pr, &q)
+				return
+			}
+			// the step of an element of a written value denotes its written key: an
+			// attribute step is a name one can write behind a dot; any other key
+			// is an index step
+			valueSpans := map[string][]world.Span{}
+			for _, f := range p.Files {
+				if f.Rendered == nil {
+					continue
+				}
+				for _, n := range f.Rendered.Nodes {
+					if n != nil && n.Kind == "attr" {
+						valueSpans[f.Name] = append(valueSpans[f.Name], n.Value)
+					}
+				}
+			}
+			var elemProblem func(ts reference.Targets, depth int) string
+			elemProblem = func(ts reference.Targets, depth int) string {
+				for _, t := range ts {
+					if depth > 0 && t.RangePtr != nil && len(t.Addr) > 0 && !exempt(t) {
+						if as, ok := t.Addr[len(t.Addr)-1].(lang.AttrStep); ok && !hclsyntax.ValidIdentifier(as.Name) {
+							for _, vs := range valueSpans[t.RangePtr.Filename] {
+								if vs.Start <= t.RangePtr.Start.Byte && t.RangePtr.End.Byte <= vs.End && t.RangePtr.End.Byte-t.RangePtr.Start.Byte < vs.End-vs.Start {
+									return fmt.Sprintf("element target %s (bytes %d..%d, inside a written value) ends in the attribute step %q, which is not a name: no reference can denote it", t.Addr.String(), t.RangePtr.Start.Byte, t.RangePtr.End.Byte, as.Name)
+								}
+							}
+						}
+					}
+					if depth < 12 {
+						if pr := elemProblem(t.NestedTargets, depth+1); pr != "" {
+							return pr
+						}
+					}
+				}
+				return ""
+			}
+			if pr := elemProblem(got, 0); pr != "" {
+				x.Report("element-key", "targets", "", pr, &q)
 				return
 			}
 			// index top-level targets by (file, range)
